@@ -87,6 +87,8 @@ class Tracer:
                 return N("closureconst", op["closure"])
             if "v" in op:
                 return N("const", op["v"], op.get("ty"), op.get("item"))
+            if "static" in op:
+                return N("static", op["static"], op.get("ty"), op.get("static_path"))
             return N("constx", op.get("s"), op.get("ty"), op.get("item"))
         return N("unknown", k)
 
@@ -371,6 +373,8 @@ def fmt(node, depth=0):
         return str(node[1]) if not node[3] else "%s(=%s)" % (node[3].split("::")[-1], node[1])
     if k == "constx":
         return str(node[1])
+    if k == "static":
+        return "static " + str(node[3])
     if k == "fnconst":
         return "fn " + node[1]
     if k == "field":
